@@ -28,6 +28,8 @@ const (
 	KString    = "string"
 	KBool      = "bool"
 	KSlice     = "slice"
+	// KNil is an untyped nil element of a []interface{} slice (a JSON null inside an array value)
+	KNil = "nil"
 )
 
 var (
